@@ -103,3 +103,7 @@ def confirm_known(ctx, jobs, norm, accepted):
         else:
             raise core.MachineryFailure("open finding C15:KI@update/post no longer reproduces on the real code: "
                                         "update known_findings.json (mark it fixed) and the specification (MSaveValid)")
+
+
+def replay(ctx, path):
+    return rf.replay_file(ctx, path, rf.INV_C15, "C15")
